@@ -1,4 +1,5 @@
 import Rv.Model.Fetch
+import Rv.Model.History
 import Rv.Model.Headers
 import Rv.Generated.Consts
 /-
@@ -21,6 +22,10 @@ structure PState where
   armed : List Nat := []
   /-- (resource, query) whose stored entry was last renewed by a 304 -/
   renewed : List (Nat × String) := []
+  /-- the trace runs with a tiny cache limit / one shard: which stores succeed and what is evicted is the
+      environment's choice (C09's theorems hold for EVERY cache state at lookup and in mid-flight); only the
+      cache-independent predicates are judged and the model's cache is not compared -/
+  pressure : Bool := false
 
 def nat (x : String) : Nat := x.toNat?.getD 0
 def int (x : String) : Int := x.toInt?.getD 0
@@ -198,26 +203,51 @@ def verdict (ps : PState) (tblNow : Nat → Option ORes) (r : Req) (entryBefore 
 
 def step (ps : PState) (fs : List String) (obs : String) : PState × String × String :=
   match fs with
-  | ["px", "reset", backend, transport, ig, fo, dflt, retryInv, retry416, _limit] =>
+  | ["px", "reset", backend, transport, ig, fo, dflt, retryInv, retry416, limit] =>
     let cfg : Cfg := { ignoreCC := decide (ig = "1"), forceDefault := decide (fo = "1"), defaultMaxAge := int dflt * 1000,
                        retryInvalidRange := decide (retryInv = "1"), retry416 := decide (retry416 = "1"), fileBackend := decide (backend = "file") }
-    let ps' : PState := { cfg := cfg, tunnel := decide (transport = "tunnel") }
+    let ps' : PState := { cfg := cfg, tunnel := decide (transport = "tunnel"), pressure := (limit.splitOn "/").length > 1 }
     (ps', "ok", "ok")
   | ["px", "origin", id, fields] =>
     let o := parseORes fields
     ({ ps with tbl := (nat id, o) :: ps.tbl.filter (·.1 ≠ nat id), served := (nat id, o.ver, o.size) :: ps.served }, "ok", "ok")
-  | ["px", "req", id, method, rng, ifr, _cond, hs, q, body] =>
+  | ["px", "req", id, method, rng, _ifr, _cond, _hs, _q, _body] =>
+    if ps.pressure then
+      -- cache-independent judgement only
+      let tf := tblFn ps.tbl
+      let res := nat id
+      let st := nat (between obs "st=" " ")
+      let body := between obs "body=" " "
+      let upI := between obs "up=[" "]"
+      let ver := nat ((((body.splitOn ":").headD "").drop 1).toString)
+      let v :=
+        if obs.startsWith "panic" then "bad:panic"
+        else if obs.startsWith "NORESPONSE" then "bad:request-left-without-response"
+        else if obs.startsWith "HANG" then "bad:request-does-not-complete"
+        else if (body.splitOn "CORRUPT").length > 1 then "bad:body-bytes-differ-from-origin-body"
+        else if (obs.splitOn "bodyerr=").length > 1 then "bad:body-truncated-or-connection-dropped"
+        else if (st = 502 || st = 500) && (match tf res with | some o => o.status < 400 | none => false) then "bad:good-origin-answer-turned-into-error"
+        else if body.startsWith "v" && !(ps.served.any (fun x => x.1 = res && x.2.1 = ver)) then "bad:body-of-unknown-version-or-other-resource"
+        else if st = 200 && method = "GET" && rng = "-" && body.startsWith "v" &&
+            !(ps.served.any (fun x => x.1 = res && x.2.1 = ver && body = s!"v{ver}:0:{x.2.2}:ok")) then "bad:body-truncated-or-extended"
+        else if upI = "" && (between obs "xc=" " ") ≠ "HIT" && st = 200 then "bad:miss-label-without-origin-contact"
+        else "ok"
+      ({ ps with now := ps.now + 1 }, obs, v)
+    else
+    match fs with
+    | ["px", "req", id, method, rng, ifr, _cond, hs, q, body] =>
     let now := ps.now + 1
     let tf := tblFn ps.tbl
     let res := nat id
     let (ifrE, ifrD, ifrSym) : Option String × Option Int × String :=
-      if ifr = "-" then (none, none, "-")
+      if ifr = "-" || ifr = "empty" || ifr = "blank" then (none, none, "-")    -- an empty If-Range value is no condition
       else if ifr.startsWith "lm:" then
         (match tf res with
           | some o => (match o.lm with
               | .at l => (none, some (l + int (ifr.drop 3).toString), s!"at:{l + int (ifr.drop 3).toString}")
               | _ => (none, none, "-"))
           | none => (none, none, "-"))
+      else if ifr.startsWith "dt:" then (none, some (int (ifr.drop 3).toString), s!"at:{int (ifr.drop 3).toString}")
       else (some (String.ofList (unhexS ifr)), none, ifr)
     let r : Req := { res := res, method := method, query := String.ofList (unhexS q), range := if rng = "-" then none else some (unhexS rng),
                      ifRangeEtag := ifrE, ifRangeDate := ifrD, hasBody := body ≠ "-" }
@@ -225,8 +255,13 @@ def step (ps : PState) (fs : List String) (obs : String) : PState × String × S
     -- an armed resource: the environment deletes the entry of exactly this request's key while the
     -- origin answers (handleEnv with the mid-flight cache); the arm is spent by the first upstream contact
     let isArmed := ps.armed.contains res
-    let cMid := if isArmed && method = "GET" then erase ps.cache res r.query else ps.cache
-    let (resp, cache', log) := handleEnv ps.cfg tf ps.cache cMid now r
+    -- ONE step of the history machine (Rv.Model.History) whose invariants Rv.Props.History proves for all
+    -- histories: the object compared with the implementation is the object the theorems are about
+    let w : Rv.History.World := { tbl := ps.tbl, cache := ps.cache, now := now, produced := [] }
+    let (w', ex) := Rv.History.step ps.cfg w (.request r (isArmed && method = "GET"))
+    let (resp, cache', log) : Resp × Cache × List UpReq := match ex with
+      | some (_, rp, lg) => (rp, w'.cache, lg)
+      | none => ({ status := 0, label := .none, body := .empty }, w'.cache, [])
     let armed' := if isArmed && !log.isEmpty then ps.armed.filter (· ≠ res) else ps.armed
     let reqX := if hs = "1" then strHex "c1" else if hs = "2" then strHex "c2,c3" else if hs = "3" then strHex "c4" else "-"
     let reqBody := if body = "-" then 0 else (unhexS body).length
@@ -246,6 +281,23 @@ def step (ps : PState) (fs : List String) (obs : String) : PState × String × S
             "bad:replaced-body-served-again"
           else "ok"
         | none => "ok"
+    -- C06: a 200 answer to a revalidation replaces the entry (whatever its validators say)
+    let v0 :=
+      if v0 ≠ "ok" then v0
+      else if between obs "xc=" " " = "REVALIDATED" && resp.label = .miss && resp.status = 200 then "bad:origin-200-on-revalidation-did-not-replace-the-entry"
+      else v0
+    -- C07: an If-Range that does not match the stored validator yields the full 200, never a part
+    let v0 :=
+      if v0 ≠ "ok" then v0
+      else if between obs "st=" " " = "206" && resp.status = 200 && ifr ≠ "-" && rng ≠ "-" then "bad:if-range-mismatch-answered-with-a-part"
+      else v0
+    -- C04: exactly the storable responses are stored (the proxy says so itself in Cache-Status "; stored")
+    let implStored := ((between obs "cs=" " ").splitOn "73746f726564").length > 1
+    let v0 :=
+      if v0 ≠ "ok" || !obs.startsWith "st=" then v0
+      else if implStored && !resp.storedFlag then "bad:stored-although-origin-forbids"
+      else if !implStored && resp.storedFlag then "bad:storable-response-not-stored"
+      else v0
     -- C08 / C10: the end-to-end header fields delivered are exactly those of the origin answer this
     -- response was built from: nothing lost, nothing altered, nothing left over from an earlier exchange
     let hImpl := (between (obs ++ " ") " h=" " ").splitOn ","
@@ -267,10 +319,12 @@ def step (ps : PState) (fs : List String) (obs : String) : PState × String × S
     let renewed' := if resp.label = .revalidated then (res, r.query) :: ps.renewed.filter (· ≠ (res, r.query))
       else if log.isEmpty then ps.renewed else ps.renewed.filter (· ≠ (res, r.query))
     ({ ps with cache := cache', now := now, armed := armed', renewed := renewed' }, m, v1)
+    | _ => (ps, "bad-op", "bad:bad-op")
   | ["px", "arm", id] => ({ ps with armed := nat id :: ps.armed.filter (· ≠ nat id) }, "armed", "ok")
   | ["px", "shift", ms] => ({ ps with now := ps.now + int ms }, "shifted", "ok")
   | ["px", "tunnelclose"] => (ps, "closed", "ok")
   | ["px", "snap"] =>
+    if ps.pressure then (ps, obs, "ok") else
     let sizes := (((ps.cache.map (fun e => toString e.o.size)).toArray.qsort (· < ·)).toList)
     (ps, s!"entries={ps.cache.length} sizes=[{" ".intercalate sizes}] bs={(ps.cache.map (fun e => e.o.size)).foldl (· + ·) 0}", "ok")
   | _ => (ps, "bad-op", "bad:bad-op")
